@@ -134,7 +134,11 @@ def op_legal(op):
         if group in ("radius",):
             continue
         out.append([group, e.name, bool(e.is_equation_met())])
-    return out
+    # the constructed model itself: its variables, the size and value of its objective, constraints per group
+    variables = sorted(v.data["name"] for v in m.gekko.variable_list)
+    groups = {g: len(eqs) for g, eqs in m.gekko.constraints.items()}
+    return {"equations": out, "variables": variables, "constraint_groups": groups, "objective_size": m.gekko.objective.size,
+            "objective_value": m.gekko.objective.evaluate(), "difference_cost_terms": len(m.gekko.variable_list)}
 
 
 def op_strop(op):
